@@ -656,3 +656,133 @@ Proof.
         destruct (ends_nl l); [|congruence].
         destruct (tg_trun_keeps r st' t') as [_ [_ [_ K]]]. rewrite (K K2). congruence.
 Qed.
+
+(* ---- the three mandatory header lines ---- *)
+Lemma tg_need_header_kv key v r stop k : no_lf key = true -> has_byte SPC key = false -> no_lf v = true ->
+  need_header key (((key ++ SPC :: v) ++ [LF]) :: r) stop k = k v r.
+Proof.
+  intros Hk Hs Hv. unfold need_header.
+  assert (Hb : is_blank ((key ++ SPC :: v) ++ [LF]) = false).
+  { destruct key as [|c key']; cbn [app]; [destruct v; reflexivity|destruct key'; reflexivity]. }
+  rewrite Hb. rewrite <- app_assoc. cbn [app]. rewrite (split_header_kv _ _ Hk Hs Hv), beqb_refl. cbn [negb].
+  replace (key ++ SPC :: v ++ [LF]) with ((key ++ SPC :: v) ++ [LF]) by (now rewrite <- app_assoc).
+  now rewrite ends_nl_app_lf.
+Qed.
+
+Lemma tg_gok_inj {A} (x y : A) : GOk x = GOk y -> x = y.
+Proof. intros E. now injection E. Qed.
+
+(* what git's parse_tag_buffer accepts *)
+Lemma tg_git_shape raw g : git_tag_fields raw = GOk g ->
+  exists oh ty nm rest,
+    raw = (k_object ++ SPC :: oh) ++ LF :: (k_type ++ SPC :: ty) ++ LF :: (k_tag ++ SPC :: nm) ++ LF :: rest /\
+    List.length oh = 40%nat /\ all_hex oh = true /\ no_lf ty = true /\ no_lf nm = true /\
+    g = (let w := git_find_wholine k_tagger (split_lines raw) in
+         mk_gtag (lower_hex oh) ty nm (git_copy_name w) (git_copy_email w)
+                 (match w with [] => Some [] | _ :: _ => git_grab_date w end) (git_contents raw)).
+Proof.
+  unfold git_tag_fields. intros H. cbv zeta in H.
+  destruct (has_nul raw); [discriminate|].
+  destruct (Nat.ltb (List.length raw) 64) eqn:Elen; [discriminate|]. apply Nat.ltb_ge in Elen.
+  destruct (negb (starts_with (str "object ") raw)) eqn:E1; [discriminate|]. apply negb_false_iff in E1.
+  apply starts_with_spec in E1 as [r0 Er0].
+  assert (S7 : skipn 7 raw = r0) by (rewrite Er0; reflexivity).
+  assert (N47 : nth 47 raw 0 = nth 40 r0 0) by (rewrite Er0; reflexivity).
+  assert (S48 : skipn 48 raw = skipn 41 r0) by (rewrite Er0; reflexivity).
+  rewrite S7, N47, S48 in H.
+  destruct (negb (all_hex (firstn 40 r0) && (nth 40 r0 0 =? LF))) eqn:E2; [discriminate|]. apply negb_false_iff in E2.
+  apply andb_true_iff in E2 as [Ehex Elf]. apply N.eqb_eq in Elf.
+  assert (Hr0 : r0 = firstn 40 r0 ++ LF :: skipn 41 r0).
+  { rewrite <- (firstn_skipn 40 r0) at 1. f_equal. apply tg_nth_skipn with (d := 0); [exact Elf|unfold LF; lia]. }
+  assert (Hlen : List.length (firstn 40 r0) = 40%nat).
+  { rewrite Er0, app_length in Elen. change (List.length (str "object ")) with 7%nat in Elen.
+    rewrite firstn_length. lia. }
+  set (oh := firstn 40 r0) in *. set (b1 := skipn 41 r0) in *. clearbody oh b1.
+  destruct (negb (starts_with (str "type ") b1)) eqn:E3; [discriminate|]. apply negb_false_iff in E3.
+  apply starts_with_spec in E3 as [b2 Eb2].
+  assert (S5 : skipn 5 b1 = b2) by (rewrite Eb2; reflexivity). rewrite S5 in H.
+  destruct (index_of LF b2) as [n|] eqn:En; [|discriminate].
+  destruct (Nat.leb 20 n); [discriminate|].
+  destruct (negb (existsb (beqb (firstn n b2)) git_tag_types)); [discriminate|].
+  destruct (tg_index_of_split _ _ _ En) as [Hb2 [Hty _]].
+  set (ty := firstn n b2) in *. set (b3 := skipn (S n) b2) in *. clearbody ty b3.
+  destruct (negb (Nat.ltb 4 (List.length b3) && starts_with (str "tag ") b3)) eqn:E4; [discriminate|].
+  apply negb_false_iff in E4. apply andb_true_iff in E4 as [_ E4].
+  apply starts_with_spec in E4 as [b4 Eb4].
+  assert (S4 : skipn 4 b3 = b4) by (rewrite Eb4; reflexivity). rewrite S4 in H.
+  destruct (index_of LF b4) as [m|] eqn:Em; [|discriminate].
+  destruct (tg_index_of_split _ _ _ Em) as [Hb4 [Hnm _]].
+  set (nm := firstn m b4) in *. set (rest := skipn (S m) b4) in *. clearbody nm rest.
+  apply tg_gok_inj in H.
+  exists oh, ty, nm, rest.
+  split; [|split; [exact Hlen|split; [exact Ehex|split; [|split]]]].
+  - rewrite Er0, Hr0, Eb2, Hb2, Eb4, Hb4. reflexivity.
+  - now rewrite no_lf_has, Hty.
+  - now rewrite no_lf_has, Hnm.
+  - symmetry. exact H.
+Qed.
+
+Theorem tag_fields_match_git : forall raw t g,
+  decode_tag raw = Ok t -> git_tag_fields raw = GOk g ->
+  let a := tag_agree_of raw in
+  hex_encode (t_target t) = gt_object g /\ t_type t = gt_type g /\ t_name t = gt_tag g /\
+  (ta_position a = true -> ta_person a = true ->
+     id_name (t_tagger t) = gt_tn g /\
+     (gt_te g = LT :: id_email (t_tagger t) ++ [GT] \/ (gt_te g = [] /\ id_email (t_tagger t) = []))) /\
+  (ta_position a = true -> ta_person a = true -> ta_date a = true ->
+     gt_td g = Some (go_date_t (t_tagger t))) /\
+  drop_while (N.eqb LF) (t_msg t ++ t_sig t) = gt_contents g.
+Proof.
+  intros raw t g Hd Hg a.
+  destruct (tg_git_shape _ _ Hg) as [oh [ty [nm [rest [Eraw [Hlen [Hhex [Hty [Hnm Eg]]]]]]]]].
+  pose proof (tg_all_hex_no_lf _ Hhex) as Hoh.
+  pose proof (split_lines_ok raw) as Hok. pose proof (split_lines_abl' raw) as Habl.
+  pose proof (concat_split_lines raw) as Hcat.
+  pose proof (split_lines_ok rest) as Hok3. pose proof (split_lines_abl' rest) as Habl3.
+  assert (Els : split_lines raw =
+                ((k_object ++ SPC :: oh) ++ [LF]) :: ((k_type ++ SPC :: ty) ++ [LF]) :: ((k_tag ++ SPC :: nm) ++ [LF]) ::
+                split_lines rest).
+  { rewrite Eraw.
+    rewrite (split_lines_line (k_object ++ SPC :: oh) _ Hoh).
+    rewrite (split_lines_line (k_type ++ SPC :: ty) _ Hty).
+    rewrite (split_lines_line (k_tag ++ SPC :: nm) _ Hnm). reflexivity. }
+  set (r3 := split_lines rest) in *.
+  (* go-git's scan of the three leading lines *)
+  unfold decode_tag in Hd. rewrite Els in Hd. unfold decode_tag_lines in Hd.
+  rewrite (tg_need_header_kv k_object oh _ _ _ eq_refl eq_refl Hoh) in Hd. cbv beta in Hd.
+  destruct (parse_oid oh) as [h|] eqn:Eh; [|discriminate].
+  rewrite (tg_need_header_kv k_type ty _ _ _ eq_refl eq_refl Hty) in Hd. cbv beta in Hd.
+  destruct (negb (valid_type ty)); [discriminate|].
+  rewrite (tg_need_header_kv k_tag nm _ _ _ eq_refl eq_refl Hnm) in Hd. cbv beta in Hd.
+  assert (Et : t = split_tag_sig (trun TTagger (tag_init h ty nm) r3)) by congruence. clear Hd.
+  unfold parse_oid in Eh. rewrite Hlen in Eh. cbn [Nat.eqb orb] in Eh.
+  set (t0 := tag_init h ty nm) in *.
+  destruct (tg_split_sig_keeps (trun TTagger t0 r3)) as [K1 [K2 [K3 [K4 K5]]]]. rewrite <- Et in K1, K2, K3, K4, K5.
+  destruct (tg_trun_keeps r3 TTagger t0) as [T1 [T2 [T3 _]]].
+  destruct (trun_body r3 TTagger t0 ltac:(discriminate) Hok3 Habl3) as [M1 M2].
+  (* git's fields *)
+  assert (Ew : git_find_wholine k_tagger (split_lines raw) = tg_who r3).
+  { rewrite Els. rewrite tg_wholine_skip; [|reflexivity|apply ends_nl_app_lf].
+    change (tg_who (((k_type ++ SPC :: ty) ++ [LF]) :: ((k_tag ++ SPC :: nm) ++ [LF]) :: r3))
+      with (git_find_wholine k_tagger (((k_type ++ SPC :: ty) ++ [LF]) :: ((k_tag ++ SPC :: nm) ++ [LF]) :: r3)).
+    rewrite tg_wholine_skip; [|reflexivity|apply ends_nl_app_lf].
+    change (tg_who (((k_tag ++ SPC :: nm) ++ [LF]) :: r3))
+      with (git_find_wholine k_tagger (((k_tag ++ SPC :: nm) ++ [LF]) :: r3)).
+    rewrite tg_wholine_skip; [reflexivity|reflexivity|apply ends_nl_app_lf]. }
+  cbv zeta in Eg. rewrite Ew in Eg.
+  assert (Ea : a = tg_agree_rest (header_of r3)).
+  { unfold a. rewrite tg_agree_unfold, Els. reflexivity. }
+  assert (Ec : git_contents raw = drop_while (N.eqb LF) (List.concat (body_lines r3))).
+  { rewrite <- Hcat at 1. rewrite (tg_contents_lines _ Hok Habl); [rewrite Els; reflexivity|rewrite Els; reflexivity]. }
+  subst g. cbn [gt_object gt_type gt_tag gt_tn gt_te gt_td gt_contents].
+  pose proof (tg_tagger_lines r3 t0 Hok3 Habl3 eq_refl) as TL. cbv zeta in TL. rewrite <- Ea in TL.
+  assert (Etag : t_tagger t = t_tagger (trun TTagger t0 r3)) by exact K4. rewrite <- Etag in TL.
+  split; [|split; [|split; [|split; [|split]]]].
+  - rewrite K1, T1. apply tg_hex_decode_lower. exact Eh.
+  - rewrite K2, T2. reflexivity.
+  - rewrite K3, T3. reflexivity.
+  - intros P1 P2. destruct (TL P1 P2) as [[G1 G2] _]. split; [exact G1|exact G2].
+  - intros P1 P2 P3. destruct (TL P1 P2) as [_ G3]. exact (G3 P3).
+  - rewrite Ec, K5, M1, M2. unfold t0, tag_init. cbn [t_msg t_sig app].
+    destruct (parse_signed_bytes (List.concat (body_lines r3))); rewrite app_nil_r; reflexivity.
+Qed.
